@@ -145,14 +145,13 @@ def magic_to_dict(kwargs, separator="_") -> dict:
     new_kwargs = {}
     for k, v in kwargs.items():
         keys = k.split(separator)
-        if len(keys) == 1:
-            new_kwargs[keys[0]] = v
+        # entries for the same key given in different notations are merged into a new
+        # dictionary (the dictionaries of the caller are not changed), later ones win
+        val = v if len(keys) == 1 else {separator.join(keys[1:]): v}
+        if isinstance(val, dict) and isinstance(new_kwargs.get(keys[0], None), dict):
+            new_kwargs[keys[0]] = {**new_kwargs[keys[0]], **val}
         else:
-            val = {separator.join(keys[1:]): v}
-            if keys[0] in new_kwargs and isinstance(new_kwargs[keys[0]], dict):
-                new_kwargs[keys[0]].update(val)
-            else:
-                new_kwargs[keys[0]] = val
+            new_kwargs[keys[0]] = val
     for k, v in new_kwargs.items():
         if isinstance(v, dict):
             new_kwargs[k] = magic_to_dict(v, separator=separator)
